@@ -568,9 +568,19 @@ class World:
         V = type("LRuleVisitor", (ASTTransformVisitor,), ns)
         return V()
 
+    def retire_stale(self, nodes: list[Any]) -> None:
+        """Nodes replaced inside a library-driven rewrite (replace() keeps the id): the old objects are stale shallow
+        copies that still reference the children now owned by their replacements."""
+        for o in nodes:
+            if o.detached:
+                tw = AwareASTNode.get_any(o.id)
+                if tw is not None and tw is not o:
+                    self.retire(o)
+
     def op_transform(self, op: dict[str, Any]) -> str:
         n = self.node_at(op["n"])
         parent = n.parent
+        tree_before = walk(n)
         v = self.mk_visitor(op["rules"], None)
         self.before()
         try:
@@ -582,12 +592,14 @@ class World:
                 self.handles[h] = res
         if res is not None and parent is None and not any(o is res for o in self.handles.values()):
             self.handles[op["out"]] = res
+        self.retire_stale(tree_before)
         return "ok"
 
     def op_transformer(self, op: dict[str, Any]) -> str:
         n = self.node_at(op["n"])
         rules = op["rules"]
         w = self
+        tree_before = walk(n)
 
         class T(ASTTransformer):
             def transform(self, node):  # noqa: ANN001
@@ -614,6 +626,7 @@ class World:
             for h, o in list(self.handles.items()):
                 if o is n:
                     self.handles[h] = res
+        self.retire_stale(tree_before)
         return "ok"
 
     # ---- C19: ops constructed to be rejected -------------------------------------------------
@@ -1189,6 +1202,30 @@ class Gen:
         new = {"c": "LInner", "p": {"tag": "rwa"}, "ch": {"items": kids}, "o": "no", "create_detached": True}
         return {"act": "replace_with", "n": ref, "new": new, "bad": "replace_with_attach_fails"}
 
+    def rj_replace_with_own_ancestor(self) -> dict[str, Any] | None:
+        """child.replace_with(its own attached root ancestor): pre-checks pass, attaching the replacement fails
+        because the receiver sits inside it."""
+        r = self.r("rj13")
+        names = [h for h, o in self.w.handles.items() if not o.detached and o.parent is None and children_of(o) and not self.w.is_retired(o)]
+        if not names:
+            return None
+        h = r.choice(names)
+        root = self.w.handles[h]
+        path: list[list[Any]] = []
+        o = root
+        # only the DIRECT parent: replacing a deeper descendant by its root ancestor is not rejected by the library
+        # at all (it builds a cyclic structure and then loops forever) -- an inadmissible history, not a rejection
+        depth = 1
+        for _ in range(depth):
+            ch = [(f, i, c) for f, i, c in children_of(o) if f != "only_leaf"]
+            if not ch:
+                break
+            f, i, o = r.choice(ch)
+            path.append([f, i])
+        if not path:
+            return None
+        return {"act": "replace_with", "n": {"h": h, "path": path}, "new": {"ref": {"h": h, "path": []}}, "bad": f"replace_with_own_ancestor_depth{len(path)}"}
+
     def rj_transform_raises(self) -> dict[str, Any] | None:
         r = self.r("rj12")
         ref = self.pick_ref(lambda o: not o.detached, root_bias=0.7)
@@ -1246,6 +1283,7 @@ REJECT_KINDS = [
     "replace_with_wrong_type",
     "replace_with_none_required",
     "replace_with_attach_fails",
+    "replace_with_own_ancestor",
     "transform_raises",
 ]
 
